@@ -18,7 +18,7 @@ LEVEL_TEXT = ("Exploration (fuzzing): each case must terminate within a budget f
 LEVEL_NOTE = ("Trusted: ASan/UBSan as crash/over-read oracle, the runner's log capture, the timeout as non-termination detector (3 s, retried with 12 s). "
               "Moderately super-linear behaviour below the timeout is not detected.")
 ASSUMPTIONS = ["a reply later than 12 s for an input of < 20 KB counts as non-termination", "UBSan vptr/function checks are off (see DESIGN 2.2)"]
-SIZES = {"quick": dict(budget_s=45, batch=100), "thorough": dict(budget_s=600, batch=200)}
+SIZES = {"quick": dict(budget_s=40, batch=100, fuzz_s=20), "thorough": dict(budget_s=480, batch=200, fuzz_s=480)}
 FLOORS = {"nontrivial": 0.4}
 ENTRIES = ["preprocess", "sqf", "config", "compile", "preprocess__", "configparse__"]
 
@@ -159,6 +159,9 @@ def _vm(env):
 
 
 def _once(r, entry, text, timeout):
+    if entry in ("preprocess", "preprocess__") and "__COUNTER" in text:
+        # __COUNTER__ is documented per-VM state: "the same input" means the same text in the same state, so the counter is put back first
+        r.cmd(dict(op="preprocess", vm=0, text="__COUNTER_RESET__", fresh=True, file="/fz/reset.sqf"), timeout=timeout)
     if entry == "preprocess":
         rep = r.cmd(dict(op="preprocess", vm=0, text=text, fresh=True, file="/fz/in.sqf"), timeout=timeout)
         return rep, rep.get("ok"), rep.get("text")
@@ -223,3 +226,44 @@ def check(case, env):
     if clean:
         labs.append("accepted_cleanly")
     return Result(nontrivial=nontrivial, labels=labs, violation=v)
+
+
+FUZZ_ENTRIES = {0: "preprocess", 1: "sqf", 2: "config"}
+FUZZ_DICT = ["#define ", "#include ", "#ifdef ", "#ifndef ", "#else", "#endif", "#undef ", "#line ", "__EVAL(", "__EXEC(", "__LINE__", "__FILE__", "__COUNTER__", "##", "/*", "*/", "//",
+             "class ", "delete ", "[] = {", "};", "private ", "params ", "call ", "then ", "else ", "exitWith ", "forEach ", "0x", "$", "1e9", "\\\n"]
+
+
+def extra(env, tier, seed, sizes):
+    """coverage-guided part (E-fuzz): libFuzzer on the preprocessor / SQF parser / config parser with the oracle inside the target
+    (runner/fuzz_frontend.cpp); every artifact is replayed through the runner as an ordinary case of this check"""
+    from engine import fuzz
+    secs = sizes.get("fuzz_s", 0)
+    if not secs:
+        return None
+    seeds = []
+    for _name, data in _seeds():
+        raw = data.encode("latin-1")[:2000]
+        for e in (0, 1, 2):
+            seeds.append(bytes([e]) + raw)
+    res = fuzz.campaign("fuzz_frontend", secs, seed, seeds[:400], os.path.join(env.scratch_dir(), "fuzz_frontend"), max_len=2048, timeout_s=10, dict_words=FUZZ_DICT)
+    out = dict(evaluations=0, nontrivial=[], labels={"libfuzzer_execs": res["execs"], "libfuzzer_artifacts": len(res["artifacts"])}, violations=[], samples=[],
+               info=dict(libfuzzer=dict(target="fuzz_frontend", execs=res["execs"], cov=res["cov"], wall_s=res["wall_s"], artifacts=len(res["artifacts"]))))
+    seen = set()
+    for kind, data in res["artifacts"]:
+        if kind not in ("crash", "timeout", "leak") or len(data) < 1 or data in seen or len(seen) >= 150:
+            continue
+        seen.add(data)
+        case = dict(entry=FUZZ_ENTRIES[data[0] % 3], input=data[1:].decode("latin-1"), kind="libfuzzer")
+        try:
+            r = check(case, env)
+        except RunnerCrash as rc:
+            r = Result(nontrivial=True, labels=["crash"], violation=viol("crash|%s|%s" % (case["entry"], sanitizer_signature(rc.detail)), rc.detail[-1200:]))
+        out["evaluations"] += 1
+        out["nontrivial"].append(hashlib.sha1(data).hexdigest())
+        for l in r.labels:
+            out["labels"][l] = out["labels"].get(l, 0) + 1
+        if r.violation is not None:
+            out["violations"].append(dict(case=case, sig=r.violation["sig"], msg=r.violation["msg"], labels=r.labels))
+        else:
+            out["labels"]["artifact_not_reproduced_in_runner"] = out["labels"].get("artifact_not_reproduced_in_runner", 0) + 1
+    return out
